@@ -172,7 +172,7 @@ def validate(res, lines, label):
 
 
 def run(tier):
-    res = Result("C08", tier, "model_checking")
+    res = Result("C08", tier, "exploration")
     res.assumptions = ["document nesting depth is bounded by 60 levels (the property's proviso)",
                        "cases are a function of (seed, index): generated programs incl. functions, rule-reference cycles, hand-written adversarial shapes "
                        "(chained filters, literal variables, function argument mismatches), 1-3 text mutations (truncate, delete, duplicate, splice, unicode / token insertion) "
@@ -196,6 +196,13 @@ def run(tier):
         kinds[l["kind"]] = kinds.get(l["kind"], 0) + 1
     res.cov["library_cases"] = kinds
     res.cov["rejected_rules_texts"] = sum(1 for l in lines if l.get("accepted") is False)
+    # distinct cases that got past the parser (the evaluator or a loader saw them) or that killed the worker
+    res.cov["distinct_nontrivial"] = len({l.get("h", "abort%d" % l["i"]) for l in lines if l.get("accepted", True)})
+    for i in (0, 2, 4):
+        if i < len(lines):
+            c = fuzz_case(sd, lines[i]["i"])
+            res.sample({"case": {"kind": c["kind"], "rules": c["rules"][:600], "data": c["data"][:300]},
+                        "outcome": {k: lines[i].get(k) for k in ("accepted", "pt", "lib", "libv", "evaluated", "abort") if k in lines[i]}})
     accepted = {l["i"]: l.get("accepted", True) for l in lines}
     for chunk in range(0, len(lines), 20000):
         validate(res, lines[chunk:chunk + 20000], "lib")
@@ -211,6 +218,8 @@ def run(tier):
     clines.extend(byte_cases(wd))
     wd.close()
     res.cov["cli_runs"] = len(clines)
+    for l in clines[:2]:
+        res.sample({"cli": {"args": l["_args"], "end": l["end"], "panic": l["panic"], "stderr": l["_stderr"][:200]}})
     validate(res, clines, "cli")
     res.add("evaluations", len(lines) + len(clines))
     res.cov["rule"] = ("MC_Cli: every driver scenario ends with a documented exit code; (seed, index) cases through run_checks (both verbosities) and "
